@@ -95,6 +95,12 @@ class Monitors:
             if node is None:
                 self.fail("C06:outside-roots", f"daemon on {host} {op} {path.replace(sim.basestr, '')} — not inside a node root (task: {task})")
                 continue
+            # C06: the path must also *resolve* inside the node root (a symlinked directory component can lead out of it)
+            if what in ("removed", "moved-away", "overwritten", "created"):
+                real = os.path.join(os.path.realpath(os.path.dirname(path)), os.path.basename(path))
+                rootreal = os.path.realpath(node.root)
+                if not (real == rootreal or real.startswith(rootreal + "/")):
+                    self.fail("C06:resolves-outside-root", f"daemon on {host}: {op} ({what}) {rel!r} on node {node.name} resolves to {real.replace(sim.basestr, '')}, outside the node root (task: {task})")
             # C07: only local, active, initialised nodes (as of the start of the iteration)
             if node.name not in ready:
                 # the marker may be created on an explicit init request
